@@ -61,7 +61,9 @@ def confirm(d):
     try:
         os.makedirs(os.path.join(wt, "examples"), exist_ok=True)
         shutil.copy(os.path.join(d, "demo.rs"), os.path.join(wt, "examples", "seeded_demo.rs"))
-        rc, out, w = sh(["cargo", "run", "--offline", "--example", "seeded_demo"], cwd=wt, env=env)
+        feats = m.get("demo_features")
+        run_demo = ["cargo", "run", "--offline", "--example", "seeded_demo"] + (["--features", feats] if feats else [])
+        rc, out, w = sh(run_demo, cwd=wt, env=env)
         res["pristine_demo_rc"] = rc
         res["pristine_demo_tail"] = out[-600:]
         rc, out, _ = sh(["git", "apply", os.path.join(d, "patch.diff")], cwd=wt)
@@ -69,7 +71,7 @@ def confirm(d):
         if rc != 0:
             res["patch_error"] = out[-600:]
         else:
-            rc, out, w = sh(["cargo", "run", "--offline", "--example", "seeded_demo"], cwd=wt, env=env)
+            rc, out, w = sh(run_demo, cwd=wt, env=env)
             res["mutated_demo_rc"] = rc
             res["mutated_demo_tail"] = out[-1200:]
             os.remove(os.path.join(wt, "examples", "seeded_demo.rs"))
